@@ -127,6 +127,10 @@ def handler : Handler := fun op j =>
     let v ← fFloats? j "v"; let lam ← fFloat? j "lam"
     let n := v.length
     some (ok (outRm (l0Prox (vecOf v n) lam) (minL (v.map fun x => (x.abs - lam).abs))))
+  | "l0x" => do
+    -- NaN-faithful transcription of `where(|v| >= lam, v, 0)` (non-finite stream)
+    let v ← fFloats? j "v"; let lam ← fFloat? j "lam"
+    some (ok (jObj [("out", jFs (v.map fun x => l0Prox1X x lam))]))
   | "l0c" => do
     let re ← fFloats? j "vre"; let im ← fFloats? j "vim"; let lam ← fFloat? j "lam"
     let n := re.length
